@@ -103,6 +103,7 @@ fn case(rng: &mut Rng, idx: u64, rec: &mut Rec) {
         Some(v) => v,
         None => return,
     };
+    let full_first_len = if first_is_100 { first_len } else { truth.head_len };
     let mut sched = Sched::random(rng, true);
     let look_at = match branch {
         Branch::GiveUpAt(p) => {
@@ -117,6 +118,14 @@ fn case(rng: &mut Rng, idx: u64, rec: &mut Rec) {
             // look at one chosen prefix first, then at whatever arrives
             let p = rng.usize_in(1, stream.len());
             sched.cuts = vec![p];
+            if sched.await_by_return && rng.chance(1, 2) {
+                // a caller that goes by the return value ("Ok(0): continue waiting") while the rest of the
+                // first head trickles in: it looks again and again at a decision already made
+                let upto = (full_first_len + 8).min(stream.len());
+                let step = rng.usize_in(1, 3);
+                sched.cuts.extend((p + 1..upto).step_by(step));
+                rec.cov("caller-goes-by-return-value/trickle");
+            }
             p
         }
     };
@@ -260,6 +269,7 @@ impl Property for P {
         v.push(("look/final-with-fields/inside-rest-of-head".into(), 10));
         v.push(("late-100-twice".into(), 50));
         v.push(("flow-produced-by-a-redirect".into(), 100));
+        v.push(("caller-goes-by-return-value/trickle".into(), 100));
         for b in ["branch/Got100/SendBody", "branch/Late100/SendBody", "branch/GiveUp/SendBody", "branch/Refused/RecvResponse"] {
             v.push((b.to_string(), 100));
         }
